@@ -209,6 +209,12 @@ func (fr *frame) callStatic(fn *ssa.Function, args []Val, argTypes []types.Type,
 			}
 		}
 	}
+	if ct != nil && ct.WalkLen != "" {
+		if rv, al, ok := fr.execWalk(ct, args, argTypes, st, alive, pos, vc.eng.pkgOfFn(fn), instr); ok {
+			vc.usedSpecs[key+" (iterator rule) ["+ct.Src+"]"] = true
+			return rv, al
+		}
+	}
 	if ct != nil && (ct.Trusted || !hasBody || vc.contractApplies(ct) || ct.Opaque) {
 		rv, al := fr.applyContract(ct, key, fn.Signature, args, argTypes, st, alive, pos, vc.eng.pkgOfFn(fn))
 		if !ct.Trusted && !vc.eng.mayReturnSentinel(fn) {
